@@ -127,6 +127,26 @@ def run(R):
             if o_[1] == 'Gt' and const_val(o_[3]) == 4 and is_call(strip_refs(o_[2]), name='len'):
                 return vals == ['else'] or 0 not in vals
             return False
+        # arithmetic on a length announced by the peer is done in usize: an addition / multiplication on the raw u32 (before it is
+        # widened) overflows for lengths near u32::MAX — a panic in debug builds, a frame length of 0..4 (endless loop) in release
+        narrow = []
+        for bb_ in sorted(ft.live_blocks()):
+            for i_, st_ in enumerate(ft.blocks[bb_]['stmts']):
+                rv_ = st_.get('rv') if isinstance(st_, dict) else None
+                if not (isinstance(rv_, dict) and 'bin' in rv_):
+                    continue
+                opn = rv_['bin'] if isinstance(rv_['bin'], str) else (rv_.get('op') or '')
+                if not any(k_ in str(opn) for k_ in ('Add', 'Mul', 'Shl')):
+                    continue
+                t_ = ft._origin_def(('stmt', bb_, i_, rv_), 0, set())
+                if not (t_ and t_[0] == 'bin'):
+                    continue
+                for side in t_[2:4]:
+                    sd = strip_refs(side)
+                    # the announced length used without a widening cast in between
+                    if is_call(sd, pat='bytes::Buf::get_u32') or (sd and sd[0] == 'field' and is_call(strip_refs(sd[1]), pat='bytes::Buf::get_u32')):
+                        narrow.append((bb_, i_, show(t_)[:80]))
+        R.check(not narrow, 'C17.R1', 'length-arithmetic-in-usize', site(ft, narrow[0][0], narrow[0][1]) if narrow else site(ft), 'no arithmetic on the raw u32 frame length (it is widened first): %r' % [x[2] for x in narrow])
         gu = [(bb, t) for bb, t in ft.calls(pat='bytes::Buf::get_')]
         okh = bool(gu) and all(any(enough(tm, vals) for s_, vals, tm in ft.edge_guards(gb)) for gb, gt in gu)
         R.check(okh, 'C17.R1', 'needs-5-byte-header', site(ft), 'every header read in find_trailers is behind the false edge of len() < 5 (or <= 5): %r (%d getter sites)' % (okh, len(gu)))
